@@ -248,7 +248,8 @@ pub fn decode_icc(stream: &[u8]) -> Result<Vec<u8>> {
                 .read_exact(std::slice::from_mut(&mut command))
                 .is_err()
             {
-                return Ok(out);
+                // End of the command stream: the final size check still applies.
+                break;
             }
             let tagcode = command & 63;
             let tag = match tagcode {
